@@ -130,15 +130,21 @@ class World:
                     i = step["id"] % len(self.pool)
                     sink = dict(step["sink"], node=i)
                     n0 = len(self.sink_ctx.targets)
-                    lz = S.build_sinks([sink], self.pool, self.sink_ctx, self.spec, vals=self.vals)
-                    new_t = list(range(n0, len(self.sink_ctx.targets)))
-                    if step["eager"]:
-                        ex = self.executor(step["executor"], step.get("seed", 0))
-                        kw = {"executor": ex} if ex is not None else {}
-                        cubed.compute(*lz, _return_in_memory_array=False, **kw)
-                    else:
-                        self.lazy.append((lz, new_t))
-                        self.pending_targets |= set(new_t)
+                    try:
+                        lz = S.build_sinks([sink], self.pool, self.sink_ctx, self.spec, vals=self.vals)
+                        new_t = list(range(n0, len(self.sink_ctx.targets)))
+                        if step["eager"]:
+                            ex = self.executor(step["executor"], step.get("seed", 0))
+                            kw = {"executor": ex} if ex is not None else {}
+                            cubed.compute(*lz, _return_in_memory_array=False, **kw)
+                        else:
+                            self.lazy.append((lz, new_t))
+                            self.pending_targets |= set(new_t)
+                    except Exception:
+                        # a store call that raised promises nothing about its target: forget the targets of this step
+                        for t in self.sink_ctx.targets[n0:]:
+                            t.expected = None
+                        raise
                     self.mutating_steps.append(idx)
                 elif op == "compute_lazy":
                     if self.lazy:
